@@ -601,7 +601,7 @@ def run(chk: Check):
     # tie to the source by regeneration: the listed definitions are re-translated from /repo by py2coq on
     # every run and PROVED equal to the hand models (coq/props/TIE.v), plus a translator self-check
     from props._tie import run_tie
-    run_tie(chk, ['variables', 'index_participants', 'validate', 'problem'])
+    run_tie(chk, ['variables', 'index_participants', 'validate', 'problem', 'glue'])
 
 
 def replay(chk: Check, payload):
